@@ -34,7 +34,9 @@ CONSTANTS ZoneKinds,   \* how the target zone hangs off its signed parent
 \*  "nsec3"       signed, denial by NSEC3
 (* query kinds: "a" | "cname" | "wild" | "nodata" | "nx" | "dname" | "ent" (an empty non-terminal below a
    wildcard's parent: it exists, the truth is NODATA, the wildcard does not apply to it) | "whost" (a name with
-   its own A record next to a wildcard: the truth is that record, not the expansion) *)
+   its own A record next to a wildcard: the truth is that record, not the expansion) | "rootnx" (a name directly
+   below the root that does not exist: the ROOT zone itself denies it; the target zone and its parent are not on
+   the path) *)
 (* tamper positions: "referral" (parent's DS / no-DS proof), "dnskey", "answer" *)
 (* tamper kinds: see Breaks below *)
 
@@ -48,12 +50,16 @@ VARIABLES zone, qk, flags, tamper, anchor,   \* the case (chosen at Init)
 vars == <<zone, qk, flags, tamper, anchor, pc, dsState, keyState, ansState, reply>>
 
 ZoneSigned == zone \in {"signed", "signed-same", "nsec3"}
-Negative == qk \in {"nodata", "nx", "ent"}
-NeedsProof == qk \in {"nodata", "nx", "wild", "ent"}     \* the answer rests on NSEC/NSEC3 records
+Negative == qk \in {"nodata", "nx", "ent", "rootnx"}
+NeedsProof == qk \in {"nodata", "nx", "wild", "ent", "rootnx"}     \* the answer rests on NSEC/NSEC3 records
 
 \* "rootref" is the ROOT's referral for the (always signed) parent of the target zone: the one
 \* delegation whose DS is authenticated by the trust anchors directly instead of by a parent DS
-Positions == {"rootref", "referral", "dnskey", "answer"}
+\* "rootkey" is the root's own DNSKEY RRset, the one RRset the trust anchors authenticate with no DS in between
+Positions == {"rootkey", "rootref", "referral", "dnskey", "answer"}
+RootOnly == qk = "rootnx"                       \* the root answers the question itself
+OnPath(pos) == IF RootOnly THEN pos \in {"rootkey", "answer"} ELSE TRUE
+AnswerSigned == ZoneSigned \/ RootOnly           \* is the zone that gives the final answer a signed one
 K(pos) == tamper[pos]        \* the tampering applied at a position ("none" = untouched)
 
 (* Which validation attribute a tampering destroys at its position.
@@ -86,6 +92,9 @@ K(pos) == tamper[pos]        \* the tampering applied at a position ("none" = un
                genuine NSEC whose interval spans the asked name - its next name lies BELOW the asked name, which
                therefore exists as an empty non-terminal: the interval denies nothing (RFC 4592 2.2.2, RFC 4035
                5.3.4) and the expansion is not what the signer published
+   barenx    : the reply is replaced by rcode NXDOMAIN with EMPTY answer and authority sections (a denial with no
+               proof at all) -> from a signed zone a denial needs its proof like any other
+   bareempty : the same with rcode NOERROR (an empty NODATA)
    wildforeign : (question kinds "ent" and "whost") the same replayed expansion, "proved" by an UNSIGNED NSEC owned
                by the parent zone whose interval spans the whole child -> records outside the signer zone are
                never validated and must not count as the next-closer denial
@@ -110,7 +119,9 @@ Referral ==
   /\ pc = "referral"
   /\ LET k == K("referral") IN
      dsState' =
-       IF K("rootref") # "none" THEN "bogus"   \* the signed parent itself is no longer authenticated
+       IF K("rootkey") # "none" THEN "bogus"   \* the root's key set itself is not authenticated: nothing below is
+       ELSE IF RootOnly THEN "secure"          \* no delegation on the path: the anchors vouch for the answering zone
+       ELSE IF K("rootref") # "none" THEN "bogus"   \* the signed parent itself is no longer authenticated
        ELSE IF ZoneSigned THEN
          (IF BreaksSig(k) \/ k \in {"strip", "swapds"} THEN "bogus"
           ELSE IF k = "dropds" THEN "bogus"      \* no DS and no proof of its absence
@@ -127,6 +138,7 @@ Dnskey ==
   /\ keyState' =
        IF dsState = "bogus" THEN "bogus"
        ELSE IF dsState = "insecure" THEN "none"
+       ELSE IF RootOnly THEN "trusted"
        ELSE IF BreaksSig(K("dnskey")) \/ K("dnskey") \in {"strip", "swapds", "roguekey"} THEN "bogus"
        ELSE "trusted"
   /\ pc' = "answer"
@@ -141,7 +153,8 @@ Answer ==
        ELSE IF keyState = "none" THEN     \* provably insecure zone: data accepted unsigned;
          "insecure"                       \* foreign answer records are dropped, not fatal (C07's filter)
        ELSE
-         (IF BreaksSig(k) \/ k \in {"strip", "inject", "roguesig", "fakedname", "foreigndeny"} THEN "bogus"
+         (IF RootOnly /\ k \in {"inject", "fakedname", "foreigndeny", "roguesig"} THEN "secure"   \* (these replies are built for zone.test. only)
+          ELSE IF BreaksSig(k) \/ k \in {"strip", "inject", "roguesig", "fakedname", "foreigndeny", "barenx", "bareempty"} THEN "bogus"
           ELSE IF k = "wildrep" /\ qk = "ent" THEN "bogus"
           ELSE IF k = "wildforeign" /\ qk \in {"ent", "whost"} THEN "bogus"
           ELSE IF NeedsProof /\ k \in {"dropproof", "foreignproof"} THEN "bogus"
@@ -149,7 +162,7 @@ Answer ==
   /\ pc' = "reply"
   /\ UNCHANGED <<zone, qk, flags, tamper, anchor, dsState, keyState, reply>>
 
-Truth == [rcode |-> IF qk = "nx" THEN "nxdomain" ELSE "noerror", data |-> qk]
+Truth == [rcode |-> IF qk \in {"nx", "rootnx"} THEN "nxdomain" ELSE "noerror", data |-> qk]
 
 (* handler + edns shaping: bogus => SERVFAIL (+EDE), AD discipline *)
 Reply ==
@@ -177,6 +190,9 @@ Done == pc = "done"
 EffectiveAt(pos) ==
   LET k == K(pos) IN
   CASE k \in {"none", "clonetag"} -> FALSE
+    [] ~OnPath(pos) -> FALSE             \* the root answers the question: nothing below it is asked
+    [] pos = "rootkey" -> TRUE           \* the root is signed in every configuration
+    [] pos = "answer" /\ RootOnly -> k \notin {"wildrep", "wildforeign", "fakedname", "foreigndeny", "inject", "roguesig"} \* (built for zone.test. only)
     [] pos = "rootref" -> TRUE           \* the parent is signed in every configuration
     [] pos = "referral" /\ k \in {"dropproof", "foreignproof"} -> ~ZoneSigned
     [] pos = "referral" /\ k \in {"dropds", "swapds"} -> ZoneSigned
@@ -191,8 +207,8 @@ Effective == \E pos \in Positions : EffectiveAt(pos)
 
 (* is the path, as delivered, authentic?  (the RFC 4035 verdict) *)
 Untampered == ~Effective
-PathSecure == anchor /\ ZoneSigned /\ Untampered
-PathInsecureProven == anchor /\ ~ZoneSigned /\ ~EffectiveAt("referral") /\ ~EffectiveAt("rootref")
+PathSecure == anchor /\ AnswerSigned /\ Untampered
+PathInsecureProven == anchor /\ ~AnswerSigned /\ ~EffectiveAt("referral") /\ ~EffectiveAt("rootref") /\ ~EffectiveAt("rootkey")
 
 (* the only legal outcomes with CD=0: SERVFAIL, or exactly what the signer published *)
 TruthOrServfail ==
@@ -211,7 +227,7 @@ ADImpliesSecure ==
 
 (* a zone is treated as unsigned only on a validated proof of no DS *)
 InsecureOnlyByProof ==
-  (Done /\ reply.rcode # "servfail" /\ ~flags.cd /\ ~ZoneSigned) => PathInsecureProven
+  (Done /\ reply.rcode # "servfail" /\ ~flags.cd /\ ~AnswerSigned) => PathInsecureProven
 
 (* no trust anchors: SERVFAIL rather than unvalidated data *)
 NoAnchorFailsClosed == (Done /\ ~anchor /\ ~flags.cd) => reply.rcode = "servfail"
